@@ -204,8 +204,10 @@ func (n *ResponderInterceptor) resendPackets(nack *rtcp.TransportLayerNack) {
 			stream.rtpBufferMutex.Unlock()
 
 			if p != nil {
-				// send without holding rtpBufferMutex
-				if _, err := stream.rtpWriter.Write(p.Header(), p.Payload(), interceptor.Attributes{}); err != nil {
+				// send without holding rtpBufferMutex; the writers below may modify the header they are given
+				// (header extensions), so each retransmission gets its own copy of the stored one
+				header := p.Header().Clone()
+				if _, err := stream.rtpWriter.Write(&header, p.Payload(), interceptor.Attributes{}); err != nil {
 					n.log.Warnf("failed resending nacked packet: %+v", err)
 				}
 				p.Release()
